@@ -119,6 +119,11 @@ def _run_impl(kind, inp):
     set_covariances(spe, inp)
     for lie, low in inp.get("prior_lies", []):
       spe.append_lies([numpy.array(lie, dtype=float)], lower=low)
+    if inp.get("transient_lies") is not None:   # a sequence of lies that is taken back: stash, append, recover leaves base points + the lies stashed
+      stash = spe.stash_lies()
+      for lie, low in inp["transient_lies"]:
+        spe.append_lies([numpy.array(lie, dtype=float)], lower=low)
+      spe.recover_lies(stash)
     x = numpy.array([inp["x"]], dtype=float)
     if kind == "dens":
       klow = spe.lower_covariance.build_kernel_matrix(spe.lower_points, x)[0]
@@ -251,6 +256,9 @@ def gen_dens(rng, lie=False):
   inp["x"] = x
   inp["prior_lies"] = [([rng.randint(0, 24) / 4 for _ in range(dim)] if rng.random() < 0.6 else list(x), rng.random() < 0.4)
                        for _ in range(rng.choice([0, 0, 1, 2, 4]))]
+  if rng.random() < 0.4:
+    inp["transient_lies"] = [([rng.randint(0, 24) / 4 for _ in range(dim)] if rng.random() < 0.6 else list(x), rng.random() < 0.5)
+                             for _ in range(rng.choice([0, 1, 1, 2, 3]))]
   if lie:
     inp["lower"] = rng.random() < 0.4
   return inp
